@@ -71,6 +71,12 @@ func C01(c *core.Ctx) {
 	c.Explain = "Decides structural necessary conditions of C01: (R1.1) Data reaches a face only through Thread.processOutgoingData, which is called only from StrategyBase.SendData and processIncomingData, and SendData only from the strategies' Data callbacks; (R1.2) by backward provenance slicing, the face id of every such call originates only from a key of InRecords() of the PIT entry being satisfied (through the local downstream map in the multi-match branch) or from the requesting face of a cache hit, which processIncomingInterest binds to the incoming face after inserting its in-record; (R1.3) the PIT token sent downstream originates only from that in-record's PitToken (or nil), never from the token carried by the arriving packet; (R1.4) the PIT match rule: an entry is appended only under canBePrefix ∨ exact depth, the token branch returns an entry only under map hit ∧ token equality, and name matching is skipped when a token is present; (R1.5) satisfaction consumes: every emission for an entry is followed by ClearInRecords and SetSatisfied(true) on that entry on all paths, SendData deletes the in-record it used; (R1.6) a cache hit produces exactly one SendData to the requester; (R1.7) no emission when no PIT entry matched. Not decided: the exact multiset of copies for every history, expiry interplay."
 	c.RuleText = "instances: every call of processOutgoingData / SendData / AfterReceiveData / AfterContentStoreHit discovered in the program, every Strategy implementation, the appends and returns of the PIT match functions. Non-trivial = has a provenance leaf set, branch edge or path to decide."
 	p := c.P
+	// ---- R1.9 (shared with C08 R8.2) a removed PIT entry is no longer reachable through
+	// its token: otherwise Data carrying that token is matched against a dead entry and
+	// delivered to faces whose Interest is no longer pending
+	c.Import(C08, "R1.9", "a removed PIT entry stays reachable through the token map: Data with that token is delivered according to a dead entry", 1, func(k string) bool {
+		return k == "R8.2:pit-remove-unlinks-token"
+	})
 	sl := &core.Slicer{P: p}
 
 	pod := c.Fn("R1.1", "fw/fw", "Thread", "processOutgoingData")
